@@ -55,6 +55,9 @@ def lit(i):
     return str(i) if i > -9223372036854775808 else "(- -9223372036854775807 1)"
 
 
+STATEFUL_CALLS = {}
+
+
 def programs(reqbuf, quick):
     """(name, builtin, size class, encoded size of the arguments, source).  One builtin and one size class per program,
     so that a failing call does not mask the others."""
@@ -108,6 +111,28 @@ def programs(reqbuf, quick):
                     "(println (file_read \"c15.data\"))", "(println (file_read \"c15.missing\"))", "(println (dir_exists \".\"))",
                     "(println (dir_exists \"c15.nodir\"))", "(println (dir_list \"c15.emptydir\"))", "(println (array_length (dir_list \"c15.dir3\")))",
                     "(println (str_length (getcwd)))"])))
+    # user-declared externs that keep state inside the C library between calls: all extern calls of one program must see
+    # one C library (CopProtocol: one co-process serves every call of the run), whatever their signatures are
+    def stateful(name, decls, lets, calls, prints):
+        src = "".join("extern fn %s\n" % d for d in decls) + "fn main() -> int {\n" + "".join("    let mut %s\n" % l for l in lets) + \
+            "    unsafe {\n" + "".join("        %s\n" % c for c in calls) + "    }\n" + "".join("    (println %s)\n" % x for x in prints) + \
+            "    return 0\n}\nshadow main { assert true }\n"
+        P.append(("stateful." + name, "extern:" + name, "state", 9, src))
+        STATEFUL_CALLS["stateful." + name] = None if name == "chdir" else len(calls)     # one extern call per line (getcwd is a builtin: not counted)
+    stateful("rand", ["srand(seed: int) -> void", "rand() -> int"], ["a: int = 0", "b: int = 0", "c: int = 0"],
+             ["(srand 7)", "set a (rand)", "set b (rand)", "(srand 7)", "set c (rand)"], ["a", "b", "(== a c)"])
+    stateful("rand48", ["srand48(seed: int) -> void", "lrand48() -> int", "drand48() -> float"], ["a: int = 0", "r: float = 0.0", "c: int = 0"],
+             ["(srand48 5)", "set a (lrand48)", "set r (drand48)", "(srand48 5)", "set c (lrand48)"], ["a", "r", "(== a c)"])
+    stateful("umask_alarm", ["umask(m: int) -> int", "alarm(s: int) -> int"], ["a: int = 0", "b: int = 0", "c: int = 0"],
+             ["set a (umask 18)", "set b (umask a)", "(alarm 1000)", "set c (alarm 0)"], ["b", "c"])
+    stateful("fenv", ["fesetround(mode: int) -> int", "fegetround() -> int", "rint(x: float) -> float", "nearbyint(x: float) -> float"],
+             ["n1: float = 0.0", "u0: int = 0", "u1: float = 0.0", "u2: float = 0.0", "d1: float = 0.0", "z1: float = 0.0", "rc: int = 0"],
+             ["set n1 (rint 2.5)", "set rc (+ rc (fesetround 2048))", "set u0 (fegetround)", "set u1 (rint 2.5)", "set u2 (nearbyint 0.25)",
+              "set rc (+ rc (fesetround 1024))", "set d1 (nearbyint -0.25)", "set rc (+ rc (fesetround 3072))", "set z1 (rint -7.75)",
+              "set rc (+ rc (fesetround 0))"], ["n1", "u0", "u1", "u2", "d1", "z1", "rc"])
+    stateful("chdir", ["chdir(p: string) -> int"], ["a: int = 0", "b: int = 0", "c: int = 0", "r: int = 0"],
+             ["set a (str_length (getcwd))", "set r (chdir \"c15.dir3\")", "set b (str_length (getcwd))", "set r (+ r (chdir \"..\"))", "set c (str_length (getcwd))"],
+             ["(- b a)", "(- c a)", "r"])
     for n in ([100, 5000, 70000, 1048570, 1048571, 2000000] if not quick else [100, 70000, 1048571, 2000000]):
         P.append(("file_read.%d" % n, "file_read", "result", 5 + 12, prog(["(println (str_length (file_read \"c15.big%d\")))" % n])))
     return P
@@ -217,6 +242,15 @@ def run(ctx):
         return item, a, b, imports
 
     results = parallel_map(one, progs, jobs=8)
+    one_library_checked = []
+    # model: one C library per run (CopState.tla): holds for the dispatcher as it is, and the spec can tell the deviations apart
+    rs_all = tlc(ctx, "CopState", cfg="CopState", workers=4, timeout=600)
+    if rs_all.violated:
+        raise InfraError("CopState.tla (Route = all) violates %s" % rs_all.violated)
+    for dev_cfg in ("CopState_bysig", "CopState_respawn"):
+        rs_dev = tlc(ctx, "CopState", cfg=dev_cfg, workers=4, timeout=600)
+        if not rs_dev.violated:
+            raise InfraError("CopState.tla does not distinguish the deviation %s: the model is vacuous" % dev_cfg)
     same = diff_known = diff_bad = uncompiled = noextern = 0
     out_hashes = set()
     builtins_seen = set()
@@ -234,6 +268,18 @@ def run(ctx):
         out_hashes.add(sha(a["stdout"]))
         if b.get("trace"):
             traces.append(((name, klass, argsize), b))
+        if klass == "state" and b.get("trace"):
+            # CopState.tla OneLibrary: every extern call of the run is served by the one co-process of the run
+            evs = [json.loads(l) for l in open(b["trace"]).read().splitlines() if l.startswith("{") and l.rstrip().endswith("}")]
+            ncall = sum(1 for e in evs if e.get("e") == "call"); nlaunch = sum(1 for e in evs if e.get("e") == "launch")
+            want_calls = STATEFUL_CALLS.get(name)
+            if nlaunch != 1 or (want_calls is not None and ncall != want_calls):
+                rep = ctx.save_replay("program-%s.json" % name, json.dumps({"property": "C15", "kind": "program", "name": name, "builtin": builtin, "source": text, "env": world,
+                                      "why": "%d co-process launches, %d calls served by it; the program performs %s extern calls" % (nlaunch, ncall, want_calls)}, indent=1))
+                ctx.violation("program %s: the run's extern calls are not all served by one co-process (%d launches, %d of %s calls routed to it): CopState.tla OneLibrary"
+                              % (name, nlaunch, ncall, want_calls), rep)
+                continue
+            one_library_checked.append(name)
         oa = (a["res"], a["code"], a["stdout"])
         ob = (b["res"], b["code"], b["stdout"])
         if a["timeout"] or b["timeout"]:
@@ -265,6 +311,8 @@ def run(ctx):
                                   "source": text, "env": world, "why": why,
                                   "inproc_stdout": a["stdout"].decode(errors="replace")[:2000], "isolated_stdout": b["stdout"].decode(errors="replace")[:2000]}, indent=1))
             ctx.violation("program %s (builtin %s, %s argument class): %s" % (name, builtin, klass, why), rep)
+    cov["one_c_library"] = {"model_states": rs_all.distinct, "invariants": ["Same", "OneLibrary"], "deviations_distinguished": ["bysig", "respawn"],
+                            "programs_with_call_count_checked": one_library_checked}
     cov["program_replay"] = {"programs": len(progs), "compared": same + diff_known + diff_bad, "identical": same, "explained_by_known_finding": diff_known,
                        "violations": diff_bad, "not_compiled": uncompiled, "no_extern_call": noextern, "builtins_covered": sorted(builtins_seen),
                        "argument_sizes": argsizes, "sizes_failing_in_as_is_model": sorted(too_big), "samples": samples,
